@@ -107,6 +107,7 @@ void cmb_resourceguard_initialize(struct cmb_resourceguard *rgp,
 
     rgp->guarded_resource = rbp;
     cmi_slist_initialize(&(rgp->observers));
+    rgp->on_signal = NULL;
 }
 
 void cmb_resourceguard_terminate(struct cmb_resourceguard *rgp)
@@ -207,6 +208,34 @@ void cmi_resourceguard_withdraw(struct cmb_resourceguard *rgp,
 }
 
 /*
+ * forward_signal - Pass a signal on to the observers of a resource guard.
+ * An observer whose owner has installed its own handler (a condition variable,
+ * which has to evaluate all its waiting processes, not just the first one)
+ * gets the signal through that handler, any other through
+ * cmb_resourceguard_signal. Either way the signal travels on to the observers
+ * of the observer.
+ */
+static void forward_signal(const struct cmb_resourceguard *rgp)
+{
+    const struct cmi_slist_head *ohead = &(rgp->observers);
+    while (ohead->next != NULL) {
+        const struct observer_tag *ot = cmi_container_of(ohead->next,
+                                                         struct observer_tag,
+                                                         listhead);
+        struct cmb_resourceguard *obs = ot->observer;
+        if (obs->on_signal != NULL) {
+            (void)(*obs->on_signal)(obs);
+            forward_signal(obs);
+        }
+        else {
+            (void)cmb_resourceguard_signal(obs);
+        }
+
+        ohead = ohead->next;
+    }
+}
+
+/*
  * cmb_resourceguard_signal - Rings the bell for a resource guard to check if
  * any of the waiting processes should be resumed. Will evaluate the demand
  * function for the first process in the queue, if any, and will resume it if
@@ -255,15 +284,7 @@ bool cmb_resourceguard_signal(struct cmb_resourceguard *rgp)
     }
 
     /* Forward the signal to any observers */
-    const struct cmi_slist_head *ohead = &(rgp->observers);
-    while (ohead->next != NULL) {
-        const struct observer_tag *ot = cmi_container_of(ohead->next,
-                                                         struct observer_tag,
-                                                         listhead);
-        struct cmb_resourceguard *obs = ot->observer;
-        cmb_resourceguard_signal(obs);
-        ohead = ohead->next;
-    }
+    forward_signal(rgp);
 
     return ret;
 }
